@@ -36,7 +36,8 @@ type c16Case struct {
 	Exts        []string `json:"exts,omitempty"`
 	Target      string   `json:"target,omitempty"`
 	Strict      bool     `json:"strict,omitempty"`
-	TinyTimeout bool     `json:"tinyTimeout,omitempty"` // --massive-timeout of a nanosecond: the run may legitimately time out
+	TinyTimeout bool     `json:"tinyTimeout,omitempty"` // --massive-timeout of microseconds: the run may legitimately time out
+	Expired     bool     `json:"expired,omitempty"`     // --massive-timeout 1ns: the deadline has passed before the library is called (the command makes the context first, then opens and reads the input)
 }
 
 func init() { registerReplay("c16", c16Check) }
@@ -228,6 +229,10 @@ func c16Check(c c16Case) string {
 		cs.Opts.Strict = c.Strict
 		cs.Opts.PassEmptyTarget = true
 	}
+	if c.Expired {
+		// the corresponding library option is WithMassive(a context whose deadline has passed)
+		cs.Cancel = ops.Cancel{Kind: "deadline"}
+	}
 	lib := ops.DefaultEnv.Run(&cs)
 	if lib.Infra != "" {
 		return ""
@@ -351,9 +356,11 @@ func c16Gen() *rapid.Generator[c16Case] {
 				c.Args = append(c.Args, "--massive-timeout", rapid.SampledFrom([]string{"0", "-1s", "0s"}).Draw(t, "badTimeout"))
 				c.Usage = "non-positive --massive-timeout"
 			case 2:
-				c.Args = append(c.Args, "--massive-timeout", rapid.SampledFrom([]string{"1ns", "1us", "50us"}).Draw(t, "tinyTimeout"))
+				d := rapid.SampledFrom([]string{"1ns", "1ns", "1us", "50us"}).Draw(t, "tinyTimeout")
+				c.Args = append(c.Args, rapid.SampledFrom([]string{"--massive-timeout", "--mt"}).Draw(t, "mtflag"), d)
 				c.Massive = true
-				c.TinyTimeout = true
+				c.TinyTimeout = d != "1ns"
+				c.Expired = d == "1ns"
 			}
 			c.Stdout = rapid.SampledFrom([]string{"pipe", "pipe", "pipe", "devfull", "closed"}).Draw(t, "stdout")
 		case "mkdir", "m":
@@ -428,7 +435,7 @@ func c16Gen() *rapid.Generator[c16Case] {
 		}
 		switch junk {
 		case 0:
-			c.Args = append(c.Args, "stray-argument")
+			c.Args = append(c.Args, rapid.SampledFrom([]string{"stray-argument", "", " ", "-", "0"}).Draw(t, "stray"))
 			c.Usage = "stray positional argument"
 		case 1:
 			c.Args = append(c.Args, "--no-such-flag")
